@@ -79,8 +79,9 @@ class TlcResult:
         self.ok = "No error has been found" in out or "Model checking completed" in out
         self.violated = re.findall(r"Invariant (\S+) is violated", out)
         self.rejects = []
-        for m in re.finditer(r'^<<"REJECT", (.*)>>$', out, re.M):
-            self.rejects.append(m.group(1))
+        for m in re.finditer(r'^"REJECT (\d+) (.*)"$', out, re.M):
+            self.rejects.append((int(m.group(1)), m.group(2).replace('\\"', '"')))
+        self.reject_mentions = out.count("REJECT")
         self.printed = re.findall(r'^<<"STAT", (.*)>>$', out, re.M)
 
 
@@ -182,9 +183,10 @@ def validate(module, cfg, cwd, trace_path, nparts=16, env=None, heap="3g", timeo
         if r.distinct != n + 1:
             raise Infra("trace validation did not consume %s: %d states for %d lines\n%s" %
                         (fn, r.distinct, n, r.out[-2000:]))
-        for rej in r.rejects:
-            m = re.match(r"(\d+), (.*)", rej)
-            rejects.append((off + int(m.group(1)), m.group(2), fn))
+        if r.reject_mentions != len(r.rejects):
+            raise Infra("could not parse every REJECT line of %s" % fn)
+        for ln, why in r.rejects:
+            rejects.append((off + ln, why, fn))
     return dict(events=events, rejects=rejects, states=states, transitions=trans,
                 wall=time.time() - t)
 
